@@ -207,7 +207,16 @@ def build_harness(tag, sanitize=False, extra_cflags=()):
         out, _ = p.communicate()
         if p.returncode != 0:
             return None, "compile of %s failed:\n%s" % (s, out)
-        r = run(["objcopy", "--redefine-syms=syms.txt", o], cwd=bdir)
+        if o == "main.o":
+            # main's calls into the handler go to the driver's recorders (drv_main.c)
+            with open(os.path.join(bdir, "syms_main.txt"), "w") as f:
+                for s2 in WRAPPED + WRAPPED_MAIN:
+                    f.write("%s __wrap_%s\n" % (s2, s2))
+                for s2 in ("load_handler", "handle_open_exec", "handle_close_write", "handle_timeout"):
+                    f.write("%s __hook_%s\n" % (s2, s2))
+            r = run(["objcopy", "--redefine-syms=syms_main.txt", o], cwd=bdir)
+        else:
+            r = run(["objcopy", "--redefine-syms=syms.txt", o], cwd=bdir)
         if r.returncode != 0:
             return None, "objcopy failed: " + r.stdout
         objs.append(o)
@@ -255,9 +264,16 @@ def run_driver(exe, args, script, timeout=600, env=None):
     e["UBSAN_OPTIONS"] = "print_stacktrace=1"
     if env:
         e.update(env)
+    def _limits():
+        # the extracted model recurses on unary numbers: give it the stack it needs
+        import resource
+        try:
+            resource.setrlimit(resource.RLIMIT_STACK, (resource.RLIM_INFINITY, resource.RLIM_INFINITY))
+        except (ValueError, OSError):
+            pass
     try:
         p = subprocess.run([exe] + args, input=script, stdout=subprocess.PIPE, stderr=subprocess.PIPE,
-                           text=True, timeout=timeout, env=e)
+                           text=True, timeout=timeout, env=e, preexec_fn=_limits)
         return p.returncode, p.stdout, p.stderr
     except subprocess.TimeoutExpired as ex:
         return -999, (ex.stdout or b"").decode() if isinstance(ex.stdout, bytes) else (ex.stdout or ""), "timeout"
